@@ -12,9 +12,10 @@ CARRIERS = ["http://a.com/p", "https://a.com", "a.com/p", "//a.com", "http://you
             "http://bc.marfeelcache.com/amp/", "https://bc.marfeel.com/", "http://a.com/redirect/p"]
 POSITIONS = ["query-first", "query-later", "path", "fragment", "userinfo", "glued-amp", "start", "cache-tail"]
 KEYS = ["url", "u", "l", "q", "next", "redirect", "redirect_to", "target", "link", "goto", "redir", "orig", "URL", "U",
-        "xu", "curl", "urls", "u2", "redirect_t"]
+        "xu", "curl", "urls", "u2", "redirect_t", "%75rl", "amp;url"]
 TARGETS = ["http://b.com/x", "https://b.com", "http://", "https://", "b.com/x", "//b.com", "/x", "/", "/?u=/x", "/../..",
-           "<self>", "<carrier-path>", "<carrier-rel>", "", "/p?url=/p", "http://a.com/p"]
+           "<self>", "<carrier-path>", "<carrier-rel>", "", "/p?url=/p", "http://a.com/p", "bc.marfeel.com/b.com/x",
+           "BC.Marfeel.com/b.com/x", "https://bc.marfeel.com/b.com/x", "y.cdn.ampproject.org/c/s/b.com/x"]
 DEPTHS = [1, 2, 3, 4]
 ENCS = ["matching", "raw", "one-more"]
 TRAILS = ["", "&z=1", "#frag", "&u=http://c.com"]
